@@ -127,6 +127,11 @@ theorem amtW_explicit0 :
     amtW { pfx := .explicit, explicit := 0, confidential := [] } = specAmount (.explicit 0) := by
   simp [amtW, specAmount]
 
+theorem issuanceW_marshal (p : TxIn × Utxo) :
+    issuanceW (copyInput (marshalInput p)) = specIssuance p.1 := by
+  simp only [issuanceW, specIssuance, copyInput_issuance, copyIssuance_marshal, cissOf]
+  cases h : p.1.issKind <;> simp [optBits]
+
 theorem inW_marshal (g : InGetter) (p : TxIn × Utxo) :
     inW g (copyInput (marshalInput p)) = specIn g p := by
   cases g with
